@@ -111,6 +111,18 @@ CHECKS: dict[str, dict] = {
         technique="TLC-enumerated edit scripts bound to real files + TLC trace acceptance of the metamorphic relation",
         ref="5-C04",
     ),
+    "C17": dict(
+        engine="spec/Edits.tla, spec/EditTrace.tla, spec/Program.tla",
+        text="Edits.tla states Visible(Shift(base, script), marked) - the marked functions disappear, every other tuple is identical - and enumerates marking "
+             "scripts (subsets of function slots x marker variants in every comment style, letter case and spacing, mixed with decoys: the word later in a "
+             "comment, the marker on the line below or as a comment line above the name's line); slots are bound to eligible name lines (decided from the raw "
+             "Pygments stream) of rendered canonical programs in all 7 languages and of the vendored corpus; TLC accepts every (base scan, script, edited "
+             "scan) triple (EditTrace.tla) on full tuples (name, span, length).",
+        note="Only functions that neither enclose nor are nested in another reported function are marked; metamorphic on the code's own base result; sampled "
+             "subsets, not exhaustive over all subsets of all files. " + BASE_NOTE,
+        technique="TLC-enumerated marking scripts bound to real files + TLC trace acceptance",
+        ref="5-C17",
+    ),
 }
 
 NOT_YET = "check not built yet in this round (see DESIGN.md section 10 for the order of work)"
